@@ -13,3 +13,15 @@ Proof.
   split; [|reflexivity]. rewrite run_session_map, map_app. rewrite app_nth2; rewrite map_length; [|apply le_n].
   rewrite Nat.sub_diag. reflexivity.
 Qed.
+
+(* sessions with mutations: the answers after any history are those of a fresh object with the geometry reached *)
+Lemma run_msession_app g pre post :
+  run_msession g (pre ++ post) = run_msession g pre ++ run_msession (final_grid g pre) post.
+Proof.
+  revert g. induction pre as [|[q|m] pre IH]; intros g; simpl; [reflexivity| |]; rewrite IH; reflexivity.
+Qed.
+Lemma msession_refresh g pre qs :
+  run_msession g (pre ++ map SQ qs) = run_msession g pre ++ map (fun q => Some (eval_query (final_grid g pre) q)) qs.
+Proof.
+  rewrite run_msession_app. f_equal. induction qs as [|q r IH]; simpl; [reflexivity|]. rewrite IH. reflexivity.
+Qed.
